@@ -19,6 +19,7 @@ PARTIAL = [
     "not proved: derivatives of order >= 2 of the quotient A/w are stated through the Leibniz system and its uniqueness only (the quotient-rule / HasDerivAt forms are for order 1, i.e. tangent and normal); the magnitude the implementation uses is the DOUBLE math.sqrt returns, which satisfies m*m = |v|^2 only up to rounding: with it the result is (1/m) v exactly (model = code, compared in exact arithmetic) but its squared length is 1 only up to that rounding (the driver ops answer BADMAG unless |m*m - |v|^2| <= 2^-49 |v|^2, the oracle checks the same bound); a vector so small that |v|^2 underflows in floating point is outside (exact mode has no underflow); A3.6 and A3.8 agree only on k + l <= order (the rest of the A3.8 table is zero)",
     "tangent / normal: the floating-point sqrt and the 18-decimals rounding of vector_normalize are outside the theorems (the rounding is the identity on exact numbers; the oracle checks parallelism exactly and the length to relative 2^-49)",
 ]
+PARTIAL.append("proved (REPAIRED span search, F-01b; models curveDersR / curveDersA32R / surfaceDersR / surfaceDersA36R of Model/SpanRGrid.lean = the per-span tables curveDersAt / curveDersA32 / surfaceDersAt / surfaceDersA36 on the span(s) findSpanLinearR returns; ops cdersr / cders32r / sdersr / sders36r): on the whole closed domain of EVERY sorted knot vector with U_p < U_n per direction - the last domain span may be EMPTY - every entry of both curve evaluators is the iterated Polynomial.derivative of the span polynomial of the (legal, non-empty, parameter-containing) span found (curve_derivatives_repaired_on_domain, a32_as_coded_repaired_on_domain); at u = U_n that span is the last non-empty one, the curve coincides with its polynomial on [U_k, U_n), so the values are the LEFT-hand derivatives (curve_derivatives_repaired_at_domain_end); rational curves: positive weight polynomial and the Leibniz system for both evaluators (rational_curve_derivatives_repaired_leibniz); surfaces: tensor-formula table (tri for SurfaceEvaluator2) and A3.6 as coded = mixed partials of the bivariate span polynomial of the span pair found (surface_derivatives_repaired_on_domain), rational surfaces (rational_surface_derivatives_repaired_on_domain); under KnotsOk the R tables are the tables of the other theorems (derivatives_repaired_eq_derivatives); kernel-decided witness curve_derivatives_repaired_witness_F01b; correspondence: stream empty-last-span (kinds cdersr / cdersr-alt / cders32r / sdersr / sdersr-alt / sders36r, at U_n and inside, orders up to degree + 2, both evaluators, with the exact oracle = derivatives of the last non-empty span's polynomial) and the same ops on ordinary shapes (tag ordinary-r). NOT lifted to the repaired search: A3.7 + A3.8 as coded (surfaceDersA38 / op sders38 run on findSpanLinear; SurfaceEvaluator2 at U_n of an empty last span is tied to the triangular tensor table surfaceDersR by correspondence only), the tangent / normal / hodograph theorems and ops (tanc, tans, nrms, ...n: stated through findSpanLinear under KnotsOk / CurveWF, ERR on an empty found span), binsearch-selected derivatives (C17)")
 
 
 def _shrink(rng, d):
@@ -128,7 +129,7 @@ def _norm_cases(rng, tier):
 def gen(rng, tier):
     out = []
     n = 150 if tier == 'quick' else 2200
-    for _ in range(n):
+    for i_ in range(n):
         if rng.random() < .55:
             d = S.rand_curve(rng, maxp=5, clamped=rng.random() < .9)
             u = S.rand_params(rng, d)[0]
@@ -139,6 +140,14 @@ def gen(rng, tier):
             out.append(Case('cders-alt' if alt else 'cders', line, dict(shape=d, u=u, order=order, alt=alt)))
             if not alt:      # A3.2 transcribed loop by loop (model `curveDersA32`)
                 out.append(Case('cders32', "cders32 %s %s %d" % (S.args(d), fr(u), order), dict(shape=d, u=u, order=order, alt=False)))
+            if i_ % 3 == 0:
+                # the tables on the span the REPAIRED model search finds (curveDersR / curveDersA32R, Model/SpanRGrid.lean) on
+                # ORDINARY shapes: they must agree with the code everywhere
+                out.append(Case('cdersr-alt' if alt else 'cdersr', "cdersr %s %s %d" % (S.args(d), fr(u), order),
+                                dict(shape=d, u=u, order=order, alt=alt), tags=('ordinary-r',)))
+                if not alt:
+                    out.append(Case('cders32r', "cders32r %s %s %d" % (S.args(d), fr(u), order),
+                                    dict(shape=d, u=u, order=order, alt=False), tags=('ordinary-r',)))
         else:
             d = S.rand_surface(rng, maxp=3, max_interior=2)
             u, v = S.rand_params(rng, d)
@@ -152,6 +161,66 @@ def gen(rng, tier):
                 out.append(Case('sders38', "sders38 %s %s %s %d" % (S.args(d)[2:], fr(u), fr(v), order), dict(shape=d, u=u, v=v, order=order, alt=True)))
             else:
                 out.append(Case('sders36', "sders36 %s %s %s %d" % (S.args(d), fr(u), fr(v), order), dict(shape=d, u=u, v=v, order=order, alt=False)))
+            if i_ % 3 == 0:
+                out.append(Case('sdersr-alt' if alt else 'sdersr', "sdersr" + line[5:], dict(shape=d, u=u, v=v, order=order, alt=alt),
+                                tags=('ordinary-r',)))
+                if not alt:
+                    out.append(Case('sders36r', "sders36r %s %s %s %d" % (S.args(d), fr(u), fr(v), order),
+                                    dict(shape=d, u=u, v=v, order=order, alt=False), tags=('ordinary-r',)))
+    # empty-last-span (F-01b, repaired): knot vectors whose last domain span [U_{n-1}, U_n] is EMPTY (G.knots_empty_last), in
+    # the direction of a curve / one direction of a surface.  derivatives(u, order) of both evaluators AT u = U_n (and
+    # strictly inside) against the tables on the span the repaired model search finds: curveDersR (A3.3/A3.4) and
+    # curveDersA32R (A3.2 as coded), surfaceDersR (tensor formula, tri for SurfaceEvaluator2) and surfaceDersA36R (ops
+    # cdersr / cders32r / sdersr / sders36r; the ops of the search without step back answer ERR at U_n) + the exact oracle
+    # (derivatives of the polynomial of the last non-empty span: left-hand values)
+    for _ in range(40 if tier == 'quick' else 500):
+        rat = rng.random() < .4
+        at_end = rng.random() < .7
+        if rng.random() < .55:
+            p = rng.randint(1, 4)
+            kv, n_ = G.knots_empty_last(rng, p)
+            P = G.points(rng, n_, rng.choice([2, 3]))
+            if rat:
+                P = G.homogeneous(P, G.weights(rng, n_))
+            d = dict(kind='curve', rat=rat, p=p, kv=kv, n=n_, P=P, dim=len(P[0]) - (1 if rat else 0))
+            u = kv[n_] if at_end else kv[p] + (kv[n_] - kv[p]) * F(rng.randint(0, 99), 100)
+            order = rng.randint(0, p + 2)
+            alt = (not rat) and rng.random() < .45
+            G.count('empty_last_span', ('curve', 'alt' if alt else 'default', 'at-end' if at_end else 'inside'))
+            tags = ('empty-last-span', 'at-end' if at_end else 'inside')
+            out.append(Case('cdersr-alt' if alt else 'cdersr', "cdersr %s %s %d" % (S.args(d), fr(u), order),
+                            dict(shape=d, u=u, order=order, alt=alt), tags=tags))
+            if not alt:
+                out.append(Case('cders32r', "cders32r %s %s %d" % (S.args(d), fr(u), order),
+                                dict(shape=d, u=u, order=order, alt=False), tags=tags))
+        else:
+            k = rng.randrange(2)
+            degs, kvs, sizes = [], [], []
+            for i in range(2):
+                p = rng.randint(1, 3)
+                if i == k:
+                    kv, n_ = G.knots_empty_last(rng, p)
+                else:
+                    kv, n_ = G.knots(rng, p, max_interior=2, allow_range=False, clamped=rng.random() < .7)
+                degs.append(p); kvs.append(kv); sizes.append(n_)
+            P = G.points(rng, sizes[0] * sizes[1], 3)
+            if rat:
+                P = G.homogeneous(P, G.weights(rng, sizes[0] * sizes[1]))
+            d = dict(kind='surface', rat=rat, pu=degs[0], pv=degs[1], kvu=kvs[0], kvv=kvs[1], su=sizes[0], sv=sizes[1], P=P, dim=3)
+            ps = S.rand_params(rng, d)
+            pk, kvk, nk = S.dirs(d)[k]
+            ps[k] = kvk[nk] if at_end else kvk[pk] + (kvk[nk] - kvk[pk]) * F(rng.randint(0, 99), 100)
+            u, v = ps
+            order = rng.randint(0, max(degs) + 1)
+            alt = (not rat) and rng.random() < .45
+            G.count('empty_last_span', ('surface', 'dir%d' % k, 'alt' if alt else 'default', 'at-end' if at_end else 'inside'))
+            tags = ('empty-last-span', 'at-end' if at_end else 'inside')
+            out.append(Case('sdersr-alt' if alt else 'sdersr',
+                            "sdersr %s %d %s %s %s %d" % ('1' if rat else '0', 1 if alt else 0, S.args(d)[2:], fr(u), fr(v), order),
+                            dict(shape=d, u=u, v=v, order=order, alt=alt), tags=tags))
+            if not alt:
+                out.append(Case('sders36r', "sders36r %s %s %s %d" % (S.args(d), fr(u), fr(v), order),
+                                dict(shape=d, u=u, v=v, order=order, alt=False), tags=tags))
     # A2.3 literally transcribed (model `basisFunsDersA23`) against helpers.basis_function_ders
     for _ in range(120 if tier == 'quick' else 2000):
         p = rng.randint(1, 7 if tier == 'quick' else 9)
